@@ -156,7 +156,9 @@ class SDVRPEnv(CVRPEnv):
             used_cap += d
             used_cap[a == 0] = 0
             a_prev = a
-        assert (demands == 0).all(), "All demand must be satisfied"
+        # The depot column holds -capacity until the depot is visited, so only customer demands are checked:
+        # a solution that serves everything in a single route never returns to the depot
+        assert (demands[:, 1:] == 0).all(), "All demand must be satisfied"
 
     def _make_spec(self, generator):
         """Make the observation and action specs from the parameters."""
